@@ -275,11 +275,8 @@ pub fn replay(r: &Value) -> bool {
     if let Some(fl) = r["flip"].as_i64() {
         let mut rep = Report::new();
         if r["variant"] == "falcon512" { bitflips_v::<F512>(s, &mut rep) } else { bitflips_v::<F1024>(s, &mut rep) }
-        for v in &rep.violations {
-            println!("{}: {}", v.signature, v.detail);
-        }
         let _ = fl;
-        return rep.violations.is_empty();
+        return crate::util::print_replay(&rep);
     }
     let a = f(s);
     let b = std::thread::spawn(move || if true { Some(()) } else { None }).join().map(|_| f(s));
